@@ -1,11 +1,14 @@
 //! Kani harnesses (external crate, path dependency on /repo).
 #![feature(allocator_api)]
+#![recursion_limit = "1024"]
 #![allow(unused, static_mut_refs)]
 #[path = "../../common/stubs.rs"]
 pub mod stubs;
 #[path = "../../common/util.rs"]
 #[macro_use]
 pub mod util;
+#[macro_use]
+pub mod common;
 #[cfg(kani)]
 mod c08;
 #[cfg(kani)]
